@@ -49,6 +49,30 @@ def rule_settings_defaults(ctx, m):
                   '%s must be inner_val(%s) (position 2 of the inner-distance triple) or the neutral value when the option is off' % (attr, src), init.line)
 
 
+def rule_adj_stores(ctx, m):
+    """Every store to an internal-domain attribute (adj_max_dist, adj_max_step, adj_penalty) of dtw.DTWSettings, in any method, is either a
+    neutral constant or a value converted with the third member of the inner-distance triple (inner_val): the kernels compare these attributes
+    with accumulated internal-domain costs."""
+    mod = m.py('dtaidistance.dtw')
+    n = 0
+    for q, f in sorted(mod.funcs.items()):
+        if f.cls != 'DTWSettings':
+            continue
+        ivs = set()
+        for s in walk_stmts(f.body):
+            if s.k == 'assign' and s.target[0] == 'tuple' and s.value[0] == 'call' and (dotted(s.value[1]) or '').endswith('inner_dist_fns') and len(s.target[1]) == 3:
+                ivs.add(s.target[1][2])
+        for s in walk_stmts(f.body):
+            if s.k == 'assign' and s.target[0] == 'attr' and s.target[1] == ('var', 'self') and s.target[2].startswith('adj_') and s.target[2] != 'adj_max_length_diff':
+                n += 1
+                v = s.value
+                ok = v in (('num', float('inf')), ('num', 0), ('var', 'inf'), ('none',)) or (v[0] == 'call' and v[1] in ivs)
+                ctx.check(ok, 'R-DOM', mod.path, q, 'store self.%s' % s.target[2],
+                          'self.%s is compared with accumulated costs of the internal domain, but is set to %s, which is not converted with inner_val '
+                          '(position 2 of inner_dist_fns): for the squared inner distance the threshold is too small / too large by a square' % (s.target[2], fmt(v)[:100]), s.line)
+    ctx.count('stores to adj_* attributes', n)
+
+
 def rule_inner_dist_table(ctx, m):
     """Encoder/decoder agreement for the inner distance: Python name -> class kind; to_c name -> int; pyx name/int -> int;
     C dispatch int -> kernel kind."""
